@@ -36,7 +36,7 @@ def seed_target(ov, crate):
     return dst
 
 
-def run_group(ov, crate, harnesses, env_extra, jobs, log_path, playback=False, overall_timeout=None):
+def run_group(ov, crate, harnesses, env_extra, jobs, log_path, playback=False, overall_timeout=None, scaled=False):
     """returns (results: {name: result}, build_ok, raw_log_path, wall_s)"""
     cdir = os.path.join(ov, CRATE_DIR[crate])
     tdir = seed_target(ov, crate)
@@ -46,6 +46,9 @@ def run_group(ov, crate, harnesses, env_extra, jobs, log_path, playback=False, o
         cmd += ["--harness", fq(h)]
     tmo = max(h["timeout"] for h in harnesses)
     cmd += ["--harness-timeout", f"{tmo}s"]
+    if scaled:
+        # verification-only cargo feature of the mla crate (scaled-down size constants)
+        cmd += ["--features", "mla_verif" if crate == "mla" else "mla/mla_verif"]
     if playback:
         cmd += ["-Z", "concrete-playback", "--concrete-playback=print", "--no-memory-safety-checks"]
     else:
